@@ -83,7 +83,7 @@ pub fn budget(prop: &str, tier: &str) -> Budget {
         "C08" => (4000, 120_000),
         "C09" => (4000, 120_000),
         "C10" => (4000, 120_000),
-        "C15" => (400, 8_000),
+        "C15" => (2400, 40_000),
         "C18" => (1500, 30_000),
         _ => (100, 1000),
     };
